@@ -97,7 +97,13 @@ func (rg *rootGeneratorSimple) generateIter() func(yield func(*Node, error) bool
 			stack.dfs(currentNode)
 		}
 
-		yield(root, rg.scanner.Err()) // 最後のブロックのrootを返却
+		if err := rg.scanner.Err(); err != nil {
+			yield(nil, err)
+			return
+		}
+		if root != nil {
+			yield(root, nil) // 最後のブロックのrootを返却
+		}
 	}
 }
 
